@@ -76,7 +76,12 @@ def cases(O):
         c["calls"][0]["code"] = layout_variants(c["calls"][0]["code"], rng)
         c["calls"][0]["file"] = rng.choice(["dir/sub/test.js", "test.js", "/abs/path/file.js", "a b/cé.js", "/srv/lib/legacy\\greet.js", "rel\\win.js",
                                          # bytes whose 6-bit groups are 62 / 63 at every alignment: the trailer is STANDARD base64 (+ and /), which strict decoders insist on
-                                         "/srv/app/routes/a~b.js", "what?.js", "o\u00e9.js", "~a.js", "ab~.js", "x>y?z~.js", "\u00ff\u00ff\u00ff.js", "a/~~~/???.js"])
+                                         "/srv/app/routes/a~b.js", "what?.js", "o\u00e9.js", "~a.js", "ab~.js", "x>y?z~.js", "\u00ff\u00ff\u00ff.js", "a/~~~/???.js"] + [f for f in E.FILE_NAMES if os.path.basename(f) not in ("", "..")])
+    # the multi-statement programs (a statement spread over several input lines, printed on one) under the special names too
+    for i, c in enumerate(cs):
+        if c["id"].startswith("c09multi-") and i % 4 == 0:
+            names = [f for f in E.FILE_NAMES if os.path.basename(f) not in ("", "..")]
+            c["calls"][0]["file"] = names[(i // 4) % len(names)]
     cs += gen + E.finding_cases("C09", opts)
     return cs
 
